@@ -11,6 +11,7 @@ package vault
 //vx:assume interpretation: a root token made by a NON-expiring root token is bound by its explicit maximum only
 //vx:bodies context,github.com/openbao/openbao/sdk/v2/logical,github.com/openbao/openbao/v2/internal/helper/namespace,github.com/openbao/openbao/sdk/v2/helper/policyutil,github.com/hashicorp/go-secure-stdlib/strutil,github.com/openbao/openbao/sdk/v2/framework,github.com/openbao/openbao/v2/internal/vault/policy,github.com/ryanuber/go-glob
 //vx:redirect (*github.com/openbao/openbao/v2/internal/vault.TokenStore).Lookup vxLookup
+//vx:redirect (*github.com/openbao/openbao/v2/internal/vault.TokenStore).lookupTainted vxLookupTainted
 //vx:redirect (*github.com/openbao/openbao/v2/internal/vault.TokenStore).create vxCreate
 //vx:redirect (*github.com/openbao/openbao/v2/internal/vault.TokenStore).resolveEntityAlias vxResolveAlias
 //vx:redirect (*github.com/openbao/openbao/v2/internal/vault.Core).NamespaceByID vxNamespaceByID
@@ -71,7 +72,16 @@ var (
 
 func vxSystem(b *framework.Backend) logical.SystemView { return vxSys }
 
+// the two lookup flavours of the token store (decided on the real lookupInternal by C02 VxLookupInternal): a token
+// whose use count is negative is awaiting revocation - it spent its last use, possibly on this very request - and is
+// only visible to a tainted lookup
 func vxLookup(ts *TokenStore, ctx context.Context, id string) (*logical.TokenEntry, error) {
+	if vxParent != nil && vxParent.NumUses < 0 {
+		return nil, nil
+	}
+	return vxParent, nil
+}
+func vxLookupTainted(ts *TokenStore, ctx context.Context, id string) (*logical.TokenEntry, error) {
 	return vxParent, nil
 }
 
@@ -162,13 +172,13 @@ func vxIn(xs []string, x string) bool {
 }
 
 type vxReq struct {
-	raw                          map[string]any
-	ttl, period, emax            time.Duration
-	hasTTL, hasPeriod, hasEmax   bool
-	policies                     []string
-	noParent, noDefault          bool
-	id, typ                      string
-	numUses                      int
+	raw                        map[string]any
+	ttl, period, emax          time.Duration
+	hasTTL, hasPeriod, hasEmax bool
+	policies                   []string
+	noParent, noDefault        bool
+	id, typ                    string
+	numUses                    int
 }
 
 // dims: which request dimensions are explored symbolically (the others keep their defaults)
@@ -229,7 +239,7 @@ func vxCtx(ns *namespace.Namespace) context.Context {
 func vxCommonChecks(r *vxReq, role *tsRoleEntry, orphanEndpoint bool, crossNS bool, resp *logical.Response) {
 	te := vxCreated
 	parent := vxParent
-	vxAssert("use-limited and batch parents never create tokens", parent.NumUses <= 0 && parent.Type != logical.TokenTypeBatch)
+	vxAssert("use-limited (also: just exhausted) and batch parents never create tokens", parent.NumUses == 0 && parent.Type != logical.TokenTypeBatch)
 	vxAssert("a root child needs a root parent", !vxIn(te.Policies, "root") || vxIn(parent.Policies, "root"))
 	vxAssert("batch tokens are never root", !(vxIn(te.Policies, "root") && te.Type == logical.TokenTypeBatch))
 	vxAssert("non-assignable policies are never assigned", !vxIn(te.Policies, policy.ResponseWrappingPolicyName))
